@@ -75,7 +75,7 @@ class C11(Check):
         for _ in range(2):
             # a small seeded tree of mutable / immutable sessions (forks, lexer steps, resume, feed_eof, positions)
             st = rng.choice(starts)
-            names = ['step', 'step', 'step', 'accepts', 'copy', 'to_imm', 'to_mut', 'exhaust', 'resume', 'eof', 'pos', 'accepts']
+            names = ['step', 'step', 'step', 'accepts', 'copy', 'to_imm', 'to_mut', 'exhaust', 'resume', 'eof', 'pos', 'accepts', 'alias']
             sops = [[rng.randrange(8), rng.choice(names)] for _ in range(rng.randint(4, 14))]
             ops.append(['session', rng.choice(texts) if texts and rng.random() < 0.5 else cfg_for_text(st), st, sops])
         return ops
